@@ -194,6 +194,9 @@ func (m *machine) mayExecute(fn *ssa.Function) bool {
 	if fn.Parent() != nil {
 		return true // anonymous function: policy of its parent already applied
 	}
+	if fn.Pkg == nil && fn.Synthetic != "" {
+		return true // wrapper / bound method / thunk: it only delegates; the callee is checked when called
+	}
 	pp := fnPkgPath(fn)
 	if pp == "" {
 		return true // synthetic wrapper; its callee is checked when called
